@@ -181,3 +181,17 @@ def case_guard(ctx, case, fn, *args):
         ctx.violation("driver:library-exception", {"what": f"the monitored operation raised {type(e).__name__} on an in-domain input", "message": str(e)[:300],
                                                     "frames": [f"{f.name}@{os.path.basename(f.filename)}:{f.lineno}" for f in tb[-8:]]}, case)
     return None
+
+
+def corpus_mols(ctx, every=1):
+    """Corpus molfiles as ABSTRACT molecules, read by the harness's own minimal V3000 reader (files beyond the plain subset are skipped and counted)."""
+    from ..oracles import ctab
+    for k, f in enumerate(corpus_files(ctx.repo)):
+        if not ctx.mine(k) or k % every:
+            continue
+        mol = ctab.parse_plain_v3000(open(f).read())
+        if mol is None:
+            ctx.skip("corpus file beyond the harness reader's plain subset")
+            continue
+        mol.name = os.path.basename(f)
+        yield f, mol
